@@ -345,6 +345,20 @@ Proof.
 Qed.
 
 
+(* every hook of a process_msg call carries the timestamp of the extracted message, which is at or above the worker's GVT: the entries a
+   vote at a value g <= GVT relies on (recorded below g) are never undone by a later rollback *)
+Lemma term_ops_at_or_above_gvt w : full p w -> forall o, In o (msg_term_ops p ck w) ->
+  match o with Term.Proc _ t _ => (k_gvt w <= t)%Z | Term.Rb _ t _ => (k_gvt w <= t)%Z | Term.Gvt _ _ => True end.
+Proof.
+  intros F o. pose proof (extract_spec w (f_good p w F)) as Hex. unfold msg_term_ops.
+  destruct (wq_extract w) as [[m|] w1]; [|intros []]. destruct Hex as (_ & Hgm & _). unfold ge in Hgm.
+  assert (Hz : (k_gvt w <= ztm m)%Z) by (unfold ztm; exact Hgm).
+  destruct (flag_add _ _ _) as [fo f]. destruct (has fo FLAG_ANTI).
+  - destruct (N.eqb fo (FLAG_ANTI + FLAG_PROC)); [|intros []]. destruct (anti_index _ _); [|intros []]. intros [<-|[]]. exact Hz.
+  - intros Hin. apply in_app_or in Hin. destruct Hin as [Hin|[<-|[]]]; [|exact Hz].
+    destruct (match last_proc _ with Some _ => _ | None => false end); [destruct Hin as [<-|[]]; exact Hz|destruct Hin].
+Qed.
+
 (* ---------- every script ---------- *)
 Lemma tw_init_TI : TI (tw_init p TMAX).
 Proof.
